@@ -424,12 +424,14 @@ def write_evidence(pid, p, tier, seed, tot, wall, violations, extra_cov=None, in
         ],
         "wall_s": round(wall, 2), "violations": violations,
     }
-    os.makedirs(os.path.join(VERIF, "evidence"), exist_ok=True)
-    tmp = os.path.join(VERIF, "evidence", pid + ".json.tmp")
+    # runs against a scratch copy (VERIF_REPO, mutant self-tests) must not overwrite the evidence of /repo
+    evdir = os.path.join(VERIF, "evidence") if REPO == "/repo" else os.path.join(BUILD, "evidence-scratch")
+    os.makedirs(evdir, exist_ok=True)
+    tmp = os.path.join(evdir, pid + ".json.tmp")
     with open(tmp, "w") as f:
         json.dump(ev, f, indent=1, ensure_ascii=False)
         f.write("\n")
-    os.replace(tmp, os.path.join(VERIF, "evidence", pid + ".json"))
+    os.replace(tmp, os.path.join(evdir, pid + ".json"))
 
 
 def check_floors(p, tot):
